@@ -9,7 +9,7 @@ from ..cfg import CFG
 from ..consteval import ConstEval, EnumVal
 from ..core import (AnalysisError, FUNC_TYPES, ancestors, ap, atoms, call_attr, calls, enclosing_stmt, facts,
                     find_calls, norm, parent, src, stores, walk)
-from .common import returns_of, top_fn
+from .common import namedtuple_fields, returns_of, top_fn
 
 REG = "hippolyzer/lib/proxy/region.py"
 HEM = "hippolyzer/lib/proxy/http_event_manager.py"
@@ -56,6 +56,26 @@ def _eq_literal_facts(node, stop):
     return out
 
 
+def record_elts(repo, mod, node) -> Optional[Tuple[List[ast.AST], Optional[List[str]]]]:
+    """Element expressions of a tuple, or of a NamedTuple / dataclass construction in field order:
+    (elements, field names | None)."""
+    if isinstance(node, ast.Tuple):
+        return list(node.elts), None
+    if isinstance(node, ast.Call):
+        fields = namedtuple_fields(repo, mod, ap(node.func) or "")
+        if fields:
+            vals = {}
+            for i, a in enumerate(node.args):
+                if i < len(fields) and not isinstance(a, ast.Starred):
+                    vals[fields[i]] = a
+            for k in node.keywords:
+                if k.arg in fields:
+                    vals[k.arg] = k.value
+            if len(vals) == len(fields):
+                return [vals[f_] for f_ in fields], list(fields)
+    return None
+
+
 class Model:
     def __init__(self, ctx):
         self.ctx = ctx
@@ -63,6 +83,7 @@ class Model:
         self.region = self.repo.cls("ProxiedRegion", REG)
         self.api_param_roles: Dict[str, List[Optional[str]]] = {}
         self.resolved_layout: Optional[Tuple[str, ...]] = None
+        self.resolved_fields: Optional[List[str]] = None    # attribute names when resolve_cap returns a record
         self._ev: Dict[str, ConstEval] = {}
         cd = self.repo.cls("CapData", CAPS)
         self.capdata_fields = [st.target.id for st in cd.node.body
@@ -269,6 +290,9 @@ class RoleFlow:
                 if isinstance(v, ast.Call) and call_attr(v) == "resolve_cap":
                     if isinstance(tgt, ast.Name):
                         self.resolved_names.add(tgt.id)
+                        if self.m.resolved_layout and self.m.resolved_fields:
+                            # a record result: positions and attributes are both readable off the name
+                            self.layouts.setdefault(tgt.id, set()).add(self.m.resolved_layout)
                     elif self.m.resolved_layout:
                         self._bind_layout(tgt, self.m.resolved_layout, None)
                 if isinstance(v, ast.Name) and v.id in self.resolved_names and self.m.resolved_layout and \
@@ -283,6 +307,9 @@ class RoleFlow:
             lay = self.value_layout(e.value)
             if lay and 0 <= e.slice.value < len(lay):
                 return lay[e.slice.value]
+        if isinstance(e, ast.Attribute) and isinstance(e.value, ast.Name) and e.value.id in self.resolved_names and \
+                self.m.resolved_fields and self.m.resolved_layout and e.attr in self.m.resolved_fields:
+            return self.m.resolved_layout[self.m.resolved_fields.index(e.attr)]
         return None
 
     def keys_for(self, e) -> Set[str]:
@@ -421,9 +448,18 @@ class RoleFlow:
             v = r.value
             if v is None or (isinstance(v, ast.Constant) and v.value is None):
                 continue
-            elts = v.elts if isinstance(v, ast.Tuple) else [v]
+            rec = record_elts(self.m.repo, self.mod, v)
+            elts = rec[0] if rec else [v]
             out.append((r, tuple(self.role_any(e) for e in elts)))
         return out
+
+    def return_fields(self) -> Optional[List[str]]:
+        names = []
+        for r in returns_of(self.fn):
+            rec = record_elts(self.m.repo, self.mod, r.value) if r.value is not None else None
+            if rec and rec[1]:
+                names.append(tuple(rec[1]))
+        return list(names[0]) if names and all(n == names[0] for n in names) else None
 
 
 def _interesting(model: Model, fi) -> bool:
@@ -479,6 +515,7 @@ def r1(ctx, model: Model):
     ctx.require(len(sigs) >= 1 and all(s == sigs[0] for s in sigs) and all(sigs[0]),
                 f"ProxiedRegion.resolve_cap: result layout not determinable ({sigs})")
     model.resolved_layout = sigs[0]
+    model.resolved_fields = rc.return_fields()
     ctx.ob("C16.R1", "ProxiedRegion.resolve_cap yields (name, url, type)", sigs[0] == (NAME, URL, TYPE),
            repo.fn("ProxiedRegion.resolve_cap").where, f"result layout is {sigs[0]} (annotated Tuple[str, str, CapType])")
     # phase 2: every function touching the tables
@@ -960,12 +997,13 @@ def r4(ctx, model: Model):
         else:
             raise AnalysisError(f"C16.R4: unsupported consumption `{norm(n)}`")
     # the function reports the match it found
-    rets = [r for r in returns_of(f.node) if isinstance(r.value, ast.Tuple)]
+    rets = [(r, record_elts(repo, f.module, r.value)[0]) for r in returns_of(f.node)
+            if r.value is not None and record_elts(repo, f.module, r.value)]
     url_p = [a.arg for a in f.node.args.args][1] if len(f.node.args.args) > 1 else None
-    for r in rets:
+    for r, elts in rets:
         ok = any(pol and isinstance(e, ast.Call) and call_attr(e) == "startswith" and isinstance(e.func, ast.Attribute) and
                  ap(e.func.value) == url_p and e.args and fl.role_of(e.args[0]) == URL and
-                 ap(e.args[0]) in {ap(x) for x in r.value.elts}
+                 ap(e.args[0]) in {ap(x) for x in elts}
                  for e, pol in facts(r, f.node))
         ctx.ob("C16.R4", "resolve_cap: a result is returned only for a cap URL that the request URL extends", ok, ctx.w(f, r),
                "the returned cap is not guarded by `<request url>.startswith(<that cap's url>)`")
@@ -1642,6 +1680,50 @@ def r8(ctx, model: Model):
     ctx.floor("C16.R8", "cap URL stores", n, 4)
 
 
+def r9(ctx, model: Optional[Model] = None):
+    repo = ctx.repo
+    ctx.rule("C16.R9", "session-level resolution asks every region of the session and every session of the manager: "
+                       "the region.resolve_cap(url) / session.resolve_cap(url) call is not conditional on the candidate's state")
+    from .common import class_methods_reachable
+    n = 0
+    for start, coll in (("Session.resolve_cap", "self.regions"), ("SessionManager.resolve_cap", "self.sessions")):
+        for g in class_methods_reachable(repo, repo.fn(start, SESS), depth=2):
+            for c in find_calls(g.node, "resolve_cap"):
+                if not (isinstance(c.func, ast.Attribute) and isinstance(c.func.value, ast.Name)):
+                    continue
+                v = c.func.value.id
+                src_iter, conds = None, []
+                for a in ancestors(c):
+                    if isinstance(a, (ast.For, ast.AsyncFor)) and isinstance(a.target, ast.Name) and a.target.id == v:
+                        src_iter = a.iter
+                        conds = [(e, pol) for e, pol in facts(c, g.node) if any(x is a for x in ancestors(e))]
+                        break
+                    if isinstance(a, (ast.GeneratorExp, ast.ListComp, ast.SetComp)):
+                        gens = [gen for gen in a.generators if isinstance(gen.target, ast.Name) and gen.target.id == v]
+                        if gens:
+                            src_iter = gens[0].iter
+                            conds = [x for cnd in gens[0].ifs for x in atoms(cnd, True)]
+                            break
+                if src_iter is None:
+                    continue
+                it = src_iter
+                while isinstance(it, ast.Call) and isinstance(it.func, ast.Name) and it.func.id in COPY_CALLS | {"reversed"} and it.args:
+                    it = it.args[0]
+                if isinstance(it, ast.Name):
+                    vals = [st.value for st in stores(g.node) if st.path == it.id and st.kind == "assign" and st.value is not None]
+                    if len(vals) == 1:
+                        it = vals[0]
+                n += 1
+                about = [f"{'' if pol else 'not '}{norm(e)}" for e, pol in conds
+                         if any(isinstance(x, ast.Name) and x.id == v for x in ast.walk(e))]
+                ctx.ob("C16.R9", f"{g.qual}: `{norm(c)}` is asked of every member of {coll}", ap(it) == coll and not about,
+                       ctx.w(g, c),
+                       (f"candidates are skipped under {about}" if about else f"iterates `{norm(src_iter)}` instead of {coll}") +
+                       ": a URL granted to a skipped region/session no longer resolves to it (seed rewriting and one-shot "
+                       "consumption are then skipped as well)")
+    ctx.floor("C16.R9", "resolve_cap fan-out calls", n, 2)
+
+
 def run(ctx):
     model = Model(ctx)
     r1(ctx, model)
@@ -1652,6 +1734,7 @@ def run(ctx):
     r6(ctx, model)
     r7(ctx, model)
     r8(ctx, model)
+    r9(ctx, model)
     ctx.note("C16: resolve_cap returns the first startswith() match in index order; resolution with prefix-related "
              "URLs across caps/regions/sessions is not decided")
     ctx.assume("multidict.MultiDict: add() appends, [] / get() return the first value, popall() removes all values "
